@@ -382,7 +382,12 @@ fn c02_histories(req: &Value) -> Value {
 		.collect();
 	let key_alpha: Vec<usize> = vec![4, 1, 2, 3]; // rsa4096, rsa2048, p384, ed25519 (decreasing PEM length)
 	let acct_shapes: Vec<(usize, usize, usize, bool)> = vec![(3, 3, 2, true), (0, 0, 0, false), (1, 2, 1, false), (2, 1, 0, true)];
-	let alpha_len = 4usize;
+	// symbols 0..3: writes of content 0..3; symbols 4..7 (certificate and key files only): the same write with an
+	// owner that cannot be resolved ("99999999999": numeric, does not fit a uid), which fails after the data was written
+	let alpha_len = if ftype == "account" { 4usize } else { 8usize };
+	let mut bad_fm = fm.clone();
+	bad_fm.cert_file_owner = Some("99999999999".to_string());
+	bad_fm.pk_file_owner = Some("99999999999".to_string());
 	let path = match ftype.as_str() {
 		"crt" => rt.block_on(crate::storage::get_certificate_path(&fm)).unwrap(),
 		"pk" => rt.block_on(crate::storage::get_keypair_path(&fm)).unwrap(),
@@ -424,16 +429,20 @@ fn c02_histories(req: &Value) -> Value {
 			let mut prev_len: i64 = init.as_ref().map(|d| d.len() as i64).unwrap_or(-1);
 			for (step, a) in seq.iter().enumerate() {
 				writes += 1;
+				let failing = *a >= 4;
+				let a = &(*a % 4);
+				let use_fm = if failing { &bad_fm } else { &fm };
+				let before = std::fs::read(&path).ok();
 				let (written, res): (Vec<u8>, Result<(), String>) = match ftype.as_str() {
 					"crt" => {
 						let d = chains[*a].clone();
-						let r = rt.block_on(crate::storage::write_certificate(&fm, &d)).map_err(|e| e.message);
+						let r = rt.block_on(crate::storage::write_certificate(use_fm, &d)).map_err(|e| e.message);
 						(d, r)
 					}
 					"pk" => {
 						let k = &keys[key_alpha[*a]];
 						let d = k.private_key_to_pem().unwrap();
-						let r = rt.block_on(crate::storage::set_keypair(&fm, k)).map_err(|e| e.message);
+						let r = rt.block_on(crate::storage::set_keypair(use_fm, k)).map_err(|e| e.message);
 						(d, r)
 					}
 					_ => {
@@ -470,6 +479,19 @@ fn c02_histories(req: &Value) -> Value {
 						(ref_bytes, r)
 					}
 				};
+				if failing {
+					// a failed write leaves the previous content or the new one, nothing else
+					let now = std::fs::read(&path).ok();
+					if res.is_ok() {
+						bad.push(json!({"oracle": "write-ok", "file_type": ftype, "init": iname, "history": seq[..=step].to_vec(), "detail": "a write with an unresolvable owner reported success"}));
+					}
+					if now != before && now.as_deref() != Some(&written[..]) {
+						bad.push(json!({"oracle": "file=written", "file_type": ftype, "init": iname, "dir": "failed-write", "history": seq[..=step].to_vec(),
+							"detail": format!("after a failed write the file holds neither the old nor the new content ({} bytes)", now.map(|v| v.len()).unwrap_or(0))}));
+					}
+					prev_len = std::fs::read(&path).map(|d| d.len() as i64).unwrap_or(-1);
+					continue;
+				}
 				if let Err(e) = res {
 					bad.push(json!({"oracle": "write-ok", "file_type": ftype, "init": iname, "history": seq[..=step].to_vec(), "detail": e}));
 					break;
